@@ -392,11 +392,16 @@ class CasJsonSerializer:
     ) -> Union[str, None]:
         feature_structures = []
 
+        # A byte array may hold the data of several sofas and may be reachable from the indexes as well; it is
+        # written once
+        written_sofa_arrays = set()
+
         views = {}
         for view in cas.views:
             views[view.sofa.sofaID] = self._serialize_view(view)
 
-            if view.sofa.sofaArray:
+            if view.sofa.sofaArray and id(view.sofa.sofaArray) not in written_sofa_arrays:
+                written_sofa_arrays.add(id(view.sofa.sofaArray))
                 if view.sofa.sofaArray.xmiID is None:
                     view.sofa.sofaArray.xmiID = cas._get_next_xmi_id()
                 json_sofa_array_fs = self._serialize_feature_structure(view.sofa.sofaArray)
@@ -408,6 +413,8 @@ class CasJsonSerializer:
         used_types = set()
         for fs in sorted(cas._find_all_fs(include_inlinable_arrays_and_lists=True), key=lambda a: a.xmiID):
             used_types.add(fs.type)
+            if id(fs) in written_sofa_arrays:
+                continue
             json_fs = self._serialize_feature_structure(fs)
             feature_structures.append(json_fs)
 
